@@ -763,6 +763,179 @@ def run_context_values_stream(ctx: Ctx, n: int):
 
 
 # ---------------------------------------------------------------------------------------
+# round 4: keyword normaliser, substitution resolver, token parser (each modelled in Lean: Model/ModelLangTok.lean)
+# ---------------------------------------------------------------------------------------
+
+def run_kwnorm_stream(ctx: Ctx, n: int):
+    """source words through `_expand_shortcut_keywords` + `_replace_underscores_by_hyphens` vs `normaliseKeywords`"""
+    from irispie.parsers import models as _pm
+    rng = ctx.rng.fork("kwnorm")
+    fixed = sorted({k for v in L.KEYWORDS.values() for k in v}) + ["!!", "!!k_ss", "!!x_1", "k_ss", "x_1_2", "!k_ss", "!foo_bar", "!ab__c", "!a1_b",
+             "!_x", "!ab_", "!for", "!if", "!end", "!list", "!steady_autovalues", "!autoswaps_simulate", "!autoswaps_steady", "!preprocessor",
+             "!postprocessor", "!substitutions", "!Transition_variables", "!transition_Variables", "!!transition_variables", "a!!b_c", "=", "x{-1}"]
+    words = list(fixed)
+    for _ in range(n):
+        w = rng.choice(["", "", "!", "!", "!!"]) + "".join(rng.choice("abzq_-1A") for _ in range(rng.randint(0, 8)))
+        if w:
+            words.append(w)
+    lines, impl = [], []
+    for i in range(0, len(words), 6):
+        ws = words[i:i + 6]
+        lines.append("kwnorm " + " ".join(ws))
+        impl.append(" ".join(["ok"] + [_pm._replace_underscores_by_hyphens(_pm._expand_shortcut_keywords(w)) for w in ws]))
+    ctx.compare("kwnorm", lines, impl, ctx.model("C04", lines))
+    ctx.evaluations += len(words)
+    # oracle (from the statement: aliases are the same keyword; names and the `!!` separator are not keywords)
+    canon = {}
+    for kind, alts in L.KEYWORDS.items():
+        for a in alts:
+            got = _pm._replace_underscores_by_hyphens(_pm._expand_shortcut_keywords(a))
+            canon.setdefault(kind, set()).add(got)
+    for kind, outs in canon.items():
+        if len(outs) != 1:
+            ctx.fail("keyword-aliases", {"stream": "kwnorm", "kind": kind}, f"aliases of one keyword normalise to different keywords: {sorted(outs)}")
+    for w in ["!!k_ss", "k_ss", "!!", "x_1_2", "!!x_1", "a!!b_c"]:
+        got = _pm._replace_underscores_by_hyphens(_pm._expand_shortcut_keywords(w))
+        if got != w:
+            ctx.fail("keyword-normaliser-touches-names", {"stream": "kwnorm", "word": w}, f"{w!r} became {got!r}")
+
+
+def run_subs_stream(ctx: Ctx, n: int):
+    """`resolve_substitutions` on consecutive sources of one process that reuse the same substitution names with different
+    bodies, vs `resolveSubstitutions` (a function of this source's definitions only)"""
+    from irispie.parsers import _substitutions as _sb
+    rng = ctx.rng.fork("subs")
+    words = ["a", "x{-1}", "+", "*", "(", ")", "b_1", "2.5", "-", "log(y)", "^", "c"]
+    lines, impl, cases = [], [], []
+    for i in range(n):
+        names = [rng.choice(["s0", "s1", "s2", "drift"]) for _ in range(rng.randint(0, 3))]
+        defs = [(nm, [rng.choice(words) for _ in range(rng.randint(1, 4))]) for nm in names]
+        eq = [rng.choice(words) if rng.chance(0.6) else "$" + rng.choice(["s0", "s1", "s2", "drift", "s9"]) + "$" for _ in range(rng.randint(1, 7))]
+        lines.append("subs " + " ".join(f"{nm}={','.join(b)}" for nm, b in defs) + " | " + " ".join(eq))
+        parsed = {"transition-equations": [("", (" ".join(eq), " ".join(reversed(eq))), ())]}
+        if defs:
+            parsed["substitutions"] = [("", (nm + rng.choice(["=", ":="]) + " ".join(b), ""), ()) for nm, b in defs]
+        try:
+            out = _sb.resolve_substitutions(parsed, ["transition-equations", "measurement-equations"])
+            dyn, std = out["transition-equations"][0][1]
+            got = "ok " + " ".join(dyn.split())
+            # oracle: plain textual replacement with this source's own (last) definitions
+            d = {}
+            for nm, b in defs:
+                d[nm] = " ".join(b)
+            want = " ".join((d.get(t[1:-1], t) if t.startswith("$") else t) for t in eq)
+            if " ".join(dyn.split()) != " ".join(want.split()):
+                ctx.fail("substitution-resolver", {"stream": "subs", "request": lines[-1], "history": lines[-4:-1]},
+                         f"resolved to {dyn!r}, this source's definitions give {want!r}")
+        except Exception as e:
+            got = "err:bad"
+        impl.append(got)
+        ctx.evaluations += 1
+    ctx.compare("subs", lines, impl, ctx.model("C04", lines))
+
+
+import re as _re
+_TOKEN_RE = _re.compile(r"\s*(?:(\d+\.?\d*(?:e[+-]?\d+)?|\.\d+)|([A-Za-z]\w*)((?:\{[^}]*\}|\[[^\]]*\])?)|(\*\*|:=|[-+*/^(),=]))")
+
+
+def tokenise(text: str):
+    """character level -> tokens of the Lean parser (trusted harness code): numbers, names with their shift, function names
+    (a name followed by `(`), operators with `**` -> `^` and `:=` -> `=`"""
+    out, i = [], 0
+    text = text.strip()
+    while i < len(text):
+        m = _TOKEN_RE.match(text, i)
+        if not m:
+            raise ValueError(text[i:i + 20])
+        i = m.end()
+        if m.group(1):
+            out.append("#" + L.rat_text(Fraction(m.group(1))))
+        elif m.group(2):
+            if text[i:].lstrip().startswith("(") and not m.group(3):
+                out.append("F:" + m.group(2))
+            else:
+                k = int(m.group(3)[1:-1].replace(" ", "")) if m.group(3) else 0
+                out.append(f"n:{m.group(2)}:{k}")
+        else:
+            out.append({"**": "^", ":=": "="}.get(m.group(4), m.group(4)))
+    return out
+
+
+def full_text(tree, rng):
+    """the fully parenthesised spelling (`printFull` of the Lean model) with the free choices of the language"""
+    k = tree[0]
+    sp = lambda: rng.choice(["", " ", " "])
+    if k == "num":
+        q = Fraction(tree[1])
+        return str(q.numerator) if q.denominator == 1 else repr(float(q))
+    if k == "name":
+        if tree[2] == 0: return tree[1]
+        b = rng.choice(["%d", "%+d", " %+d "]) % tree[2]
+        return tree[1] + (("{" + b + "}") if rng.chance(0.5) else ("[" + b + "]"))
+    if k == "neg": return "(" + sp() + "-" + sp() + full_text(tree[1], rng) + sp() + ")"
+    if k == "bin":
+        op = tree[1] if tree[1] != "^" else rng.choice(["^", "**"])
+        return "(" + sp() + full_text(tree[2], rng) + sp() + op + sp() + full_text(tree[3], rng) + sp() + ")"
+    if k == "f1": return tree[1] + "(" + sp() + full_text(tree[2], rng) + sp() + ")"
+    if k == "f2": return tree[1] + "(" + full_text(tree[2], rng) + sp() + "," + sp() + full_text(tree[3], rng) + ")"
+    raise ValueError(tree)
+
+
+def run_parse_stream(ctx: Ctx, n: int):
+    """print -> text -> tokens -> Lean `parseEqn` -> translate -> evaluate, against irispie on the same text and the structure"""
+    rng = ctx.rng.fork("parse")
+    decls = [["tv", "x", ""], ["tv", "y", ""], ["par", "a", ""], ["par", "b", ""], ["exo", "z", ""]]
+    pools = {"tv": [("name", "x"), ("name", "y")], "par": [("name", "a"), ("name", "b")], "exo": [("name", "z")]}
+    lines, cases = [], []
+    for i in range(n):
+        r = rng.fork(i)
+        g = L.TreeGen(r, pools, [], False)
+        for _ in range(20):
+            tr = g.tree(["tv", "par", "exo"], r.randint(1, 3), r.chance(0.6))
+            if not any(w in json.dumps(tr) for w in ('"pf"', '"subs"', '"forsum"')):
+                break
+        else:
+            tr = ["name", "y", -1]
+        lhs = ["name", "x", 0] if r.chance(0.8) else ["bin", "*", ["name", "x", 0], ["name", "a", 0]]
+        eqn = ["eq", lhs, tr] if r.chance(0.9) else ["bare", ["bin", "-", lhs, tr]]
+        text = (full_text(eqn[1], r) + r.choice([" = ", ":=", "="]) + full_text(eqn[2], r)) if eqn[0] == "eq" else full_text(eqn[1], r)
+        eqs = [{"kind": "T", "descr": "", "dyn": eqn, "steady": None},
+               {"kind": "T", "descr": "", "dyn": ["eq", ["name", "y", 0], ["bin", "*", ["name", "a", 0], ["name", "y", -1]]], "steady": None}]
+        sm = {"decls": decls, "decl_groups": [], "family_tokens": [], "eqs": eqs, "eq_groups": [], "subs": [], "logset": [], "features": []}
+        data = L.gen_data(r.fork("data"), sm, T0, T0 - 1)
+        source = f"!variables\n  x, y\n!parameters\n  a, b\n!exogenous-variables\n  z\n!equations\n  {text};\n  y = a*y{{-1}};\n"
+        spec = {"vals": {}, "strs": {}, "lists": {}, "flags": {}, "ints": {}}
+        case = {"sm": sm, "data": data, "t": T0, "variants": [(source, spec, {"allbut": False, "listed": []}, [], [])], "lean": False}
+        check_model_case(ctx, case, None)
+        rows = " ".join(f"{nm}={min(data[nm])}:" + ",".join(L.rat_text(data[nm][p]) for p in sorted(data[nm])) for nm in sorted(data))
+        lines.append(f"parse {T0} " + " ".join(tokenise(text)) + " | " + rows)
+        cases.append((eqn, source, spec, data, text))
+    replies = ctx.model("C04", lines)
+    if replies is None:
+        return
+    for (eqn, source, spec, data, text), rep in zip(cases, replies):
+        ctx.streams_compared["parse"] = ctx.streams_compared.get("parse", 0) + 1
+        case = {"stream": "parse", "text": text}
+        parts = rep.split(" | ")
+        if len(parts) != 3 or parts[0] != "ok " + L.enc_eqn(eqn) or parts[1] != "T":
+            ctx.disagree("parse", case, "ok " + L.enc_eqn(eqn) + " | T", rep)
+            continue
+        line, dyn, std = impl_model(source, spec, data, T0)
+        if std is None or not parts[2].startswith(("q:", "f:")):
+            ctx.disagree("parse", case, str(dyn), rep); continue
+        g = dyn[0]
+        if parts[2].startswith("q:"):
+            q = Fraction(parts[2][2:])
+            ok = (Fraction(g) == q) if (L.eqn_is_exact(eqn, {}) and math.isfinite(g)) else abs(g - float(q)) <= 1e-9 * max(1.0, abs(float(q)), L.eqn_scale(eqn, data, T0, {}, set()))
+        else:
+            import struct
+            f = struct.unpack("<d", struct.pack("<Q", int(parts[2][2:])))[0]
+            ok = abs(g - f) <= 1e-9 * max(1.0, L.eqn_scale(eqn, data, T0, {}, set())) or (g != g and f != f)
+        if not ok:
+            ctx.disagree("parse-values", case, repr(g), parts[2])
+
+
+# ---------------------------------------------------------------------------------------
 # entry points
 # ---------------------------------------------------------------------------------------
 
@@ -801,6 +974,9 @@ def run(ctx: Ctx):
                 "and, for the prep stream, distinct (items, #for, #if, non-trivial output) shapes of directive sequences")
     run_corpus(ctx)
     run_tables(ctx)
+    run_kwnorm_stream(ctx, ctx.n(600, 20000))
+    run_subs_stream(ctx, ctx.n(400, 10000))
+    run_parse_stream(ctx, ctx.n(150, 3000))
     run_functions_stream(ctx, ctx.n(8, 120))
     run_context_values_stream(ctx, ctx.n(150, 3000))
     run_prep_stream(ctx, ctx.n(2500, 60000))
